@@ -92,6 +92,23 @@ func fsProbeStates() []harness.Tree {
 	}
 }
 
+// fsLinkStates: trees that hold symbolic links (to a collection, to a file, dangling, to an ancestor, inside a
+// collection beside ordinary members). No reference model is consulted on them: only model-free oracles
+// (C02 tree unchanged under >= 400, C17 no leak) judge these states.
+func fsLinkStates() []harness.Tree {
+	return []harness.Tree{
+		{"/": {Dir: true}, "/a": {Dir: true}, "/a/a": {Content: "x"}, "/b.html": {Link: "a"}},
+		{"/": {Dir: true}, "/a": {Content: "x"}, "/b.html": {Link: "a"}},
+		{"/": {Dir: true}, "/a": {Dir: true}, "/b.html": {Link: "missing"}},
+		{"/": {Dir: true}, "/a": {Dir: true}, "/a/b.html": {Link: "../a"}, "/a/a": {Content: "yy"}},
+		{"/": {Dir: true}, "/a": {Dir: true}, "/a/a": {Link: "/nonexistent-absolute-target/x"}, "/b.html": {Content: "x"}},
+		// a collection whose members are an ordinary file and, after it in walk order, a link to a file; an
+		// existing destination collection and an existing destination file
+		{"/": {Dir: true}, "/a": {Dir: true}, "/a/a": {Content: "x"}, "/a/b.html": {Link: "a"}, "/b.html": {Dir: true}, "/b.html/a": {Content: "yy"}},
+		{"/": {Dir: true}, "/a": {Link: "b.html"}, "/b.html": {Content: "x"}},
+	}
+}
+
 func fsPaths(maxDepth int, probe bool) (paths []string, spellings []string) {
 	level := []string{""}
 	paths = []string{"/"}
